@@ -162,6 +162,19 @@ func (e *Enc) libModel(fr *Frame, full string, callee *ssa.Function, args []Val,
 		e.note("constructor " + full + " returns a non-nil value (assumed contract of the dependency)")
 		e.countCall(cur, shortFuncName(callee), args)
 		return markExt(v), true
+	case "time.NewTicker", "time.NewTimer":
+		// a new ticker/timer object: non-nil and distinct from every object allocated so far
+		if e.sortOf(resType) != "Ref" {
+			break
+		}
+		tn := e.fresh("tick")
+		e.declare(tn, "Ref")
+		a := e.allocComp()
+		afact, anext := allocNew(e.get(cur.st, a), tn)
+		e.assume(and(not(eq(tn, "nil")), afact))
+		e.set(cur.st, a, anext)
+		e.countCall(cur, shortFuncName(callee), args)
+		return Val{T: tn, S: "Ref", Typ: resType}, true
 	case "github.com/libp2p/go-libp2p/core/peerstore.GetCertifiedAddrBook":
 		// (cab, ok): ok implies a non-nil address book (assumed contract of the dependency)
 		v := e.freshResult(resType, cur, "cab")
